@@ -676,6 +676,11 @@ func (e *c02) closing() {
 			good, flap, relayed := false, false, false
 			for o := range m.leaveHeard {
 				if !e.m[o].running {
+					// an observer that flapped after hearing the leave and has gone since: it
+					// relayed the status time it kept while it was there
+					if m.flapAfterLeave[o] {
+						flap = true
+					}
 					continue
 				}
 				if _, lists := c.View(o)[name]; !lists {
